@@ -96,6 +96,9 @@ def _configs(tier, salts):
         # geometries whose trust-region step can increase the model, every single deviation with 'best' / 'x0.3'
         if salt == 0 or (tier == "thorough" and salt == 1):
             out += cfgs.tr_increase_cfgs(salt, restarts=("none", "hard_new", "soft"))
+        # declared linear-algebra faults (every call of the geometry system answered 'singular' once)
+        if salt == 0 or (tier == "thorough" and salt == 1):
+            out += cfgs.linalg_fault_cfgs(salt, tier)
         # every budget for the momentum extra steps (the budget must end exactly inside one for its save site to be reached)
         if salt == 0 or (tier == "thorough" and salt == 1):
             for name, cfg in cfgs.broad_cfgs(salt=salt, budgets=tuple(range(6, 41)), probs=("rosen",), overlays=("avg",)):
